@@ -233,6 +233,13 @@ void XMLDateTime::addDuration(XMLDateTime*             fNewDate
     //
 
     fNewDate->reset();
+
+    //  The fraction of a second does not take part in the field arithmetic
+    //  below; carry it over so that it still decides between durations that
+    //  only differ there.
+    fNewDate->fMilliSecond = fDuration->fMilliSecond;
+    fNewDate->fHasTime     = fDuration->fHasTime;
+
     //add months (may be modified additionaly below)
     int temp = DATETIMES[index][Month] + fDuration->fValue[Month];
     fNewDate->fValue[Month] = modulo(temp, 1, 13);
@@ -409,7 +416,7 @@ int XMLDateTime::compareOrder(const XMLDateTime* const lValue
         }
     }
 
-    if ( lTemp.fHasTime)
+    if ( lTemp.fHasTime || rTemp.fHasTime )
     {
         if ( lTemp.fMilliSecond < rTemp.fMilliSecond )
         {
@@ -1016,6 +1023,9 @@ void XMLDateTime::parseDuration()
 
                 fValue[Second]     = negate * parseInt(fStart, mlsec);
                 fMilliSecond        = negate * parseMiliSecond(mlsec+1, end);
+                // compareOrder() only looks at the fraction of values
+                // that have a time part
+                fHasTime            = true;
             }
             else
             {
